@@ -998,14 +998,20 @@ type setBuilder[V any] struct {
 }
 
 func (r *setBuilder[V]) Add(v V) *setBuilder[V] {
+	assert(r.m != nil, "immutable.SetBuilder: builder invalid after Build() invocation")
 	r.m.set(v, true, true)
 	return r
 }
 
+// Build returns the underlying set. Only call once.
+// Builder is invalid after call. Will panic on second invocation.
 func (r *setBuilder[V]) Build() fp.Set[V] {
+	assert(r.m != nil, "immutable.SetBuilder.Build(): duplicate call to fetch set")
+	m := r.m
+	r.m = nil
 	return fp.MakeSet[V](func() fp.SetMinimal[V] {
-		return SetMinimal(r.m.hasher)
-	}, set[V]{r.m})
+		return SetMinimal(m.hasher)
+	}, set[V]{m})
 }
 
 func SetBuilder[V any](hasher fp.Hashable[V]) *setBuilder[V] {
